@@ -11,7 +11,7 @@ for _v in ('OPENBLAS_NUM_THREADS', 'OMP_NUM_THREADS', 'MKL_NUM_THREADS'):
     os.environ.setdefault(_v, '1')
 import numpy as np
 
-ATTRS = ['a', 'b', 'c', 'd']
+ATTRS = ['a', 'b', 'c', 'd', 'e']
 
 
 # ------------------------------------------------------------------ domains / projections
@@ -74,6 +74,12 @@ def structures(k):
             'tri+tail': [[A[0], A[1], A[2]], [A[2], A[3]]],
             'two-islands': [[A[0], A[1]], [A[2], A[3]]],
             'partial': [[A[1], A[2]]],
+        })
+    if k >= 5:
+        # branching junction trees: a depth-first listing of the cliques backtracks, so the clique listed just before is not the tree parent
+        s.update({
+            'branch': [[A[0], A[1]], [A[1], A[2]], [A[2], A[3]], [A[1], A[4]]],
+            'fork': [[A[0], A[1], A[2]], [A[2], A[3]], [A[3], A[4]], [A[1], A[4]][:1] + [A[3]]],
         })
     return s
 
